@@ -84,6 +84,24 @@ fn c19() {
             }
         }}
     }}}}
+    // specificity columns do not carry into each other: any number of classes loses to one id, any number of element names to one class,
+    // any number of ids to the style attribute
+    for n in [255usize, 256, 257, 300] {
+        let many_classes: String = std::iter::repeat(".k").take(n).collect();
+        let many_ids: String = std::iter::repeat("#i").take(n).collect();
+        let many_elems: String = { let mut s = String::new(); for _ in 0..n { s.push_str("div "); } s + "p" };
+        let nest = |inner: &str| -> String { let mut s = String::new(); for _ in 0..n { s.push_str("<div>"); } s.push_str(inner); for _ in 0..n { s.push_str("</div>"); } s };
+        for (css, html, want, what) in [
+            (format!("#i{{color:#ff0000;}} {}{{color:#0000ff;}}", many_classes), "<p id=i class=k>x</p>".to_string(), (255, 0, 0), "one id against many classes"),
+            (format!(".k{{color:#ff0000;}} {}{{color:#0000ff;}}", many_elems), nest("<p id=i class=k>x</p>"), (255, 0, 0), "one class against many element names"),
+            (format!("{}{{color:#0000ff;}}", many_ids), "<p id=i class=k style='color:#ff0000;'>x</p>".to_string(), (255, 0, 0), "the style attribute against many ids"),
+        ] {
+            cases += 1;
+            let doc = format!("<style>{}</style>{}", css, html);
+            let got = { let d = doc.clone(); std::thread::Builder::new().stack_size(1 << 28).spawn(move || colour_of(config::rich().use_doc_css(), &d)).unwrap().join().unwrap_or(None) };
+            if got != Some(want) { found("c19", &format!("n={} {} html={}...", n, what, &doc[..doc.len().min(120)]), &format!("{}: expected {:?}, rendered colour {:?}", what, want, got)); }
+        }
+    }
     println!("NONE {}", cases);
 }
 
